@@ -85,3 +85,46 @@ def ops(name):
         {"op": "build", "pkg": "Base", "inputs": ["Base/lib.gom"]},
         {"op": "link", "pkgs": ["Base", "Main"]},
     ]
+
+
+# a package that exports every kind of item several times over (maps inside the interface must serialise in one order)
+RICH = """package Rich
+extern type Dur
+extern type Conn
+extern type Buf
+extern type Loc
+extern type Rgx
+extern "go" "time" dur_of(n: int32) -> Dur
+extern "go" "strings" "ToUpper" up(s: string) -> string
+extern "go" "strings" "ToLower" low(s: string) -> string
+extern "go" "path" "Base" base(p: string) -> string
+struct Aa { x: int32 }
+struct Bb { y: bool, a: Aa }
+struct Cc[T] { v: T }
+enum Ee { E1, E2(int32) }
+enum Ff[T] { F1, F2(T) }
+trait Ta { fn ta(Self) -> int32; }
+trait Tb { fn tb(Self) -> string; fn tb2(Self, int32) -> int32; }
+impl Ta for Aa { fn ta(self: Aa) -> int32 { self.x } }
+impl Ta for Bb { fn ta(self: Bb) -> int32 { 1 } }
+impl Ta for int32 { fn ta(self: int32) -> int32 { self } }
+impl Tb for Aa { fn tb(self: Aa) -> string { "a" } fn tb2(self: Aa, n: int32) -> int32 { n } }
+impl Tb for string { fn tb(self: string) -> string { self } fn tb2(self: string, n: int32) -> int32 { n } }
+impl Aa { fn get(self: Aa) -> int32 { self.x } fn mk(n: int32) -> Aa { Aa { x: n } } }
+impl[T] Cc[T] { fn unwrap(self: Cc[T]) -> T { self.v } }
+fn f1() -> int32 { BODY }
+fn f2[T](x: T) -> T { x }
+fn f3[T: Ta](x: T) -> int32 { Ta::ta(x) }
+fn f4(a: Aa, b: Bb) -> Ee { E2(a.x) }
+"""
+RICH_MAIN = """package Main
+import Rich
+fn main() {
+    let a: Rich::Aa = Rich::Aa::mk(3);
+    string_println(int32_to_string(Rich::f1() + Rich::f3(a) + Rich::f2(1)))
+}
+"""
+
+
+def rich(body="7"):
+    return RICH.replace("BODY", body)
